@@ -189,7 +189,8 @@ PLAN.update({
         'quick': ['adm_gate_dev_rw', 'adm_gate_dev_ro', 'adm_gate_pro_rw',
                   'adm_transp_acks_quick_dev_adm',
                   'adm_transp_lifecycle_quick_ac_pro_adm',
-                  'adm_transp_events_quick_dev_noadm'],
+                  'adm_transp_events_quick_dev_noadm',
+                  'adm_transp_events_quick_dev_adm'],
         'thorough': [k for k in admin.CONFIGS],
     },
     'C09': {
